@@ -187,7 +187,13 @@ DoFault(f, p) ==
           [] f = "flip_body" -> mlen > 0 /\ p \in {hdr + MAC + 1, Len(c)} /\ wire' = Rewire(wire, FlipAt(c, p)) /\ UNCHANGED <<okey, ononce>>
           [] f = "flip_epk"  -> cons = "seal" /\ p \in {1, PKB} /\ wire' = Rewire(wire, FlipAt(c, p)) /\ UNCHANGED <<okey, ononce>>
           [] f = "flip_nonce" -> cons # "seal" /\ p = 0 /\ ononce' = Nn("flipped") /\ UNCHANGED <<wire, okey>>
-          [] f = "flip_key"  -> cons = "secretbox" /\ p = 0 /\ okey' = SymKey("k_flipped") /\ UNCHANGED <<wire, ononce>>
+          \* the key the opener derives the symmetric key from: the secret-box key itself, the recipient's secret key of a box
+          \* (the precomputed key for the afternm forms), the recipient's key pair of a sealed box
+          [] f = "flip_key"  -> /\ p = 0
+                                /\ okey' = CASE cons = "secretbox" -> SymKey("k_flipped")
+                                              [] cons = "box" -> Shared(KP("a"), KP("b_flipped"))
+                                              [] OTHER -> KP("r_flipped")
+                                /\ UNCHANGED <<wire, ononce>>
           [] f = "truncate"  -> p \in 1..Len(c) /\ wire' = Rewire(wire, Sub(c, 1, Len(c) - p)) /\ UNCHANGED <<okey, ononce>>
           [] f = "extend"    -> p \in {1, 16, 17} /\ wire' = Rewire(wire, c \o Junk(p, 8)) /\ UNCHANGED <<okey, ononce>>
   /\ UNCHANGED <<cons, encv, openv, mlen, room, result>>
